@@ -7,7 +7,7 @@ CONSTANT NInputs = 2
 CONSTANT NoRepeat = FALSE
 CONSTANT CheckRestore = FALSE
 CONSTANT Nondegenerate = TRUE
-CONSTANT Mutant = "gates"
+CONSTANT Mutant = "restore_swaps_index_pair"
 INIT Init
 NEXT Next
 INVARIANT TypeOK
